@@ -554,3 +554,20 @@ Fixpoint sched_ok (s : st) (ops : list op) : bool :=
   | [] => true
   | o :: t => guard s o && sched_ok (fst (step s o)) t
   end.
+
+(* the three hypotheses separately (guard s o = h1 s o && h2 s o && h3 s o, Proof/C09.v) *)
+Definition h1 (s : st) (o : op) : bool :=
+  match o with SetMd k _ _ | DelMd k _ => negb (at_unban (wpc s) k) | _ => true end.
+Definition h2 (s : st) (o : op) : bool :=
+  match o with Create k _ _ => negb (won (wpc s) k) | _ => true end.
+Definition h3 (s : st) (o : op) : bool :=
+  match o with
+  | SetMd k _ _ | DelMd k _ | Open k _ | Has k _ | Delete k | MarkComplete k | GetMd k _ _ => negb (in_window3 s k)
+  | ListK _ => match wkey (wpc s) with Some k => negb (in_window3 s k) | None => true end
+  | _ => true
+  end.
+Fixpoint sched_by (gd : st -> op -> bool) (s : st) (ops : list op) : bool :=
+  match ops with
+  | [] => true
+  | o :: t => gd s o && sched_by gd (fst (step s o)) t
+  end.
